@@ -14,6 +14,7 @@ var (
 	fPlan    = flag.String("sim.plan", "", "execute this plan file instead of generating from seeds")
 	fOut     = flag.String("sim.out", "", "append JSON result lines to this file (default stdout)")
 	fKeep    = flag.Bool("sim.keepplan", false, "include the executed plan in every result")
+	fInject  = flag.String("sim.inject", "", "machinery self-test: make the harness misbehave on purpose")
 	fTrace   = flag.String("sim.trace", "", "write the full scheduler/event trace of the run to this file")
 )
 
@@ -22,5 +23,5 @@ func TestSim(t *testing.T) {
 	if *fEngine == "" && *fPlan == "" {
 		t.Skip("no -sim.engine / -sim.plan given")
 	}
-	Main(t, *fEngine, *fProfile, *fTier, *fSeed, *fCount, *fPlan, *fOut, *fKeep, *fTrace)
+	Main(t, *fEngine, *fProfile, *fTier, *fSeed, *fCount, *fPlan, *fOut, *fKeep, *fTrace, *fInject)
 }
